@@ -642,7 +642,15 @@ class MultiFit(FitBase):
         if _data_size is None:
             return None
         else:
-            return self.data_size - len(self._combined_parameter_node_dict.keys()) + len(self._fitter.fixed_parameters)
+            _extra_ndf_constraints = 0
+            for _parameter_constraint in self._fit_param_constraints:
+                _extra_ndf_constraints += _parameter_constraint.extra_ndf
+            for _fit in self._fits:
+                for _parameter_constraint in _fit.parameter_constraints:
+                    _extra_ndf_constraints += _parameter_constraint.extra_ndf
+            return (
+                self.data_size - len(self._combined_parameter_node_dict.keys()) + len(self._fitter.fixed_parameters) + _extra_ndf_constraints
+            )
 
     @property
     def goodness_of_fit(self):
@@ -658,6 +666,9 @@ class MultiFit(FitBase):
             _gof_sum += self._shared_cost_function.goodness_of_fit(
                 *[self._nexus.get(_node_name).value for _node_name in self._shared_cost_function.arg_names]
             )
+        # constraints added to the multi-fit itself are part of its cost (those of the members are part of their gof)
+        for _parameter_constraint in self._fit_param_constraints:
+            _gof_sum += _parameter_constraint.cost(self.parameter_values)
         return _gof_sum
 
     @property
